@@ -73,7 +73,7 @@ func mustPrecedeE(to ssa.Instruction, pred func(ssa.Instruction) bool, cut func(
 
 func ruleC01(c *Ctx, r *Result) {
 	c01registry(c, r)
-	c01signReaders(c, r)
+	c01signReaders(c, r, "C01.1")
 	c01chunkKey(c, r)
 	c01sizeDiscipline(c, r)
 	c01dispatchDefaults(c, r)
@@ -377,7 +377,7 @@ func strconvI(bits string) string {
 
 // c01signReaders: in the numeric dataset readers, a conversion that reinterprets an unsigned N-bit load as a
 // signed N-bit integer happens only under a test of the datatype's sign flag.
-func c01signReaders(c *Ctx, r *Result) {
+func c01signReaders(c *Ctx, r *Result, rule string) {
 	isSignedCall := func(v ssa.Value) bool {
 		call, ok := v.(*ssa.Call)
 		return ok && c.calleeName(call) == "core.DatatypeMessage.IsSigned"
@@ -450,13 +450,13 @@ func c01signReaders(c *Ctx, r *Result) {
 					guarded = true
 				}
 			}
-			r.Check(guarded, "C01.1", c.Name(fn)+"#signed-reinterpretation-under-sign-flag", c.InstrPos(cv),
+			r.Check(guarded, rule, c.Name(fn)+"#signed-reinterpretation-under-sign-flag", c.InstrPos(cv),
 				"stored "+from.Name()+" bits are read as "+to.Name()+" only when the datatype's sign flag is set (otherwise Uint values above the signed maximum come back negative)")
 		})
 	}
-	decodes := c01signWidth(c, r)
+	decodes := c01signWidth(c, r, rule)
 	if n < 4 && decodes < 4 {
-		r.Errorf("C01.1: only %d signed reinterpretation sites and %d fixed-point decode sites found in the numeric readers (expected 4)", n, decodes)
+		r.Errorf(rule+": only %d signed reinterpretation sites and %d fixed-point decode sites found in the numeric readers (expected 4)", n, decodes)
 	}
 }
 
@@ -464,7 +464,7 @@ func c01signReaders(c *Ctx, r *Result) {
 // is followed through conversions, phis and helper parameters to the float conversion; the first conversion to a signed
 // integer type on the way must have N bits (uint32 -> uint64 -> int64 reinterprets bit 63, not bit 31: negative int32
 // values come back as value + 2^32). Returns the number of decode sites followed.
-func c01signWidth(c *Ctx, r *Result) int {
+func c01signWidth(c *Ctx, r *Result, rule string) int {
 	decodes := 0
 	for _, name := range []string{"core.convertToFloat64", "hdf5.convertToFloat64", "hdf5.convertBytesToInt32AsFloat64", "hdf5.convertBytesToInt64AsFloat64"} {
 		fn := c.FnOpt(name)
@@ -532,7 +532,7 @@ func c01signWidth(c *Ctx, r *Result) int {
 				}
 			}
 			walk(call, 0)
-			r.Check(bad == "", "C01.1", c.Name(fn)+"#signed-at-stored-width#"+itoa(width), c.InstrPos(call), "a stored "+itoa(width)+"-bit integer is reinterpreted as signed at "+itoa(width)+" bits before it is widened "+bad)
+			r.Check(bad == "", rule, c.Name(fn)+"#signed-at-stored-width#"+itoa(width), c.InstrPos(call), "a stored "+itoa(width)+"-bit integer is reinterpreted as signed at "+itoa(width)+" bits before it is widened "+bad)
 		})
 	}
 	return decodes
